@@ -50,6 +50,14 @@ def run_prog_property(ck, pid, prop_file, kinds, n_gen_quick, n_gen_thorough, st
     nviol = 0
     other_kinds = {}
     for rec, cfg, k, kind, m, r in issues:
+        if kind == "tsem-mismatch":
+            # the bit-level semantics (Compile/TSem.v) is what the circuits are PROVED to compute (LowerSim.v) as long
+            # as Lower.v is the code; a concrete input on which the real circuit differs from it
+            ck.violation("the real circuit differs from the bit-level semantics Compile/TSem.v (the function the model "
+                         "of the lowering provably computes)",
+                         {"program": rec["src"], "config": cfg, "inputs_per_param": rec["inss"][k],
+                          "tsem_result": m, "circuit_result": r}, key=known_key_fn(rec, "spurious-panic", "(ok", r) if known_key_fn else None)
+            continue
         if kind not in kinds:
             other_kinds[kind] = other_kinds.get(kind, 0) + 1
             continue
@@ -75,6 +83,9 @@ def run_prog_property(ck, pid, prop_file, kinds, n_gen_quick, n_gen_thorough, st
     accepted = stats["compiled"] / max(1, stats["programs"])
     ck.obligation("generator health: at least 80% of the generated programs are accepted by the real checker",
                   accepted >= 0.8, f"accepted fraction {accepted:.2f}")
+    ck.obligation("bit-level semantics Compile/TSem.v covers the generated programs (at most 2% of evaluations outside it)",
+                  stats.get("tsem_outside", 0) <= 0.02 * max(1, stats.get("tsem_compared", 0)),
+                  f"{stats.get('tsem_outside', 0)} of {stats.get('tsem_compared', 0)}")
     ck.obligation("specification interpreter covers the generated programs (at most 2% of evaluations outside the model)",
                   stats["outside_model"] <= 0.02 * max(1, stats["evaluations"]),
                   f"{stats['outside_model']} of {stats['evaluations']}")
